@@ -89,6 +89,10 @@ class Reg(Logic):
             
         self.value = self.reset_value
         
+        # the register powers up with its reset value (as the generated reg rq = <reset_value>)
+        if (self.reset_value != 0):
+            self.q.put(self.reset_value)
+        
     def clock(self):
         setValue = True
         resetValue = False
